@@ -172,6 +172,7 @@ func cmdCheck(args []string) {
 	discharged := 0
 	solverTime := 0.0
 	byBackend := map[string]int{}
+	crossConfirmed := map[string]int{}
 	for _, o := range all {
 		solverTime += o.secs
 		if okOblig(o) {
@@ -179,6 +180,9 @@ func cmdCheck(args []string) {
 				discharged++
 			}
 			byBackend[o.solver]++
+			for _, a := range o.alsoUnsat {
+				crossConfirmed[a]++
+			}
 			continue
 		}
 		isKnown := false
@@ -234,6 +238,9 @@ func cmdCheck(args []string) {
 	}
 	// 3b. thorough tier: bounded replay harnesses on the unchanged tree and the must-fail / must-pass corpora
 	thorough := map[string]interface{}{}
+	if *tier == "thorough" {
+		thorough["cross_checked_unsat_by"] = crossConfirmed
+	}
 	if *tier == "thorough" && !*noEvidence {
 		bounded, bad := runBoundedHarnesses(e, *prop)
 		thorough["bounded"] = bounded
